@@ -10,6 +10,7 @@ import (
 	"go/types"
 	"golang.org/x/tools/go/packages"
 	"sort"
+	"strconv"
 	"strings"
 )
 
@@ -579,8 +580,53 @@ func c11Levels(p *Prog, r *Report) {
 		}
 		return m, def, true
 	}
+	// the converters evaluated on every declared level of their domain and on one value outside it (whatever
+	// control structure they use: a switch with returns, a defaulted local, a table)
+	evalTable := func(fi *FuncInfo, domain []string) (map[string]string, string, bool) {
+		m := map[string]string{}
+		for _, v := range domain {
+			n, err := strconv.ParseInt(v, 10, 64)
+			if err != nil {
+				return nil, "", false
+			}
+			res, err := evalMethod(p, fi, intVal(n))
+			if err != nil || res == nil || res.C == nil {
+				return nil, "", false
+			}
+			m[v] = res.C.ExactString()
+		}
+		res, err := evalMethod(p, fi, intVal(97))
+		if err != nil || res == nil || res.C == nil {
+			return nil, "", false
+		}
+		return m, res.C.ExactString(), true
+	}
+	var grpcDomain, modelDomain []string
+	if nt := protoNamed(p, "TxIsoLevel"); nt != nil {
+		for _, v := range enumConsts(nt) {
+			grpcDomain = append(grpcDomain, v)
+		}
+	}
+	if rootPkg := p.Pkg("."); rootPkg != nil {
+		seenV := map[string]bool{}
+		for _, n := range rootPkg.Types.Scope().Names() {
+			if c, ok := rootPkg.Types.Scope().Lookup(n).(*types.Const); ok && strings.HasSuffix(c.Type().String(), "model.TxIsoLevel") && !seenV[c.Val().ExactString()] {
+				seenV[c.Val().ExactString()] = true
+				modelDomain = append(modelDomain, c.Val().ExactString())
+			}
+		}
+	}
+	sort.Strings(grpcDomain)
+	sort.Strings(modelDomain)
 	g2m, g2mDef, ok1 := table(conv)
 	m2g, m2gDef, ok2 := table(toG)
+	if !ok1 || !ok2 || g2mDef == "" || m2gDef == "" {
+		if a, ad, okA := evalTable(conv, grpcDomain); okA {
+			if b, bd, okB := evalTable(toG, modelDomain); okB {
+				g2m, g2mDef, m2g, m2gDef, ok1, ok2 = a, ad, b, bd, true, true
+			}
+		}
+	}
 	if !ok1 || !ok2 {
 		r.Undecided("C11.b", "iso_level", p.pos(conv.Decl), "converters are not single switches over constants")
 		return
@@ -1326,6 +1372,39 @@ func c11Handlers(p *Prog, r *Report) {
 			}
 			return false, ""
 		}
+		// one deferred conversion of the named error result, registered before every return:
+		//   defer func() { if err != nil { err = errors.Error(err) } }()
+		deferAdapter := -1
+		if res := fi.Decl.Type.Results; res != nil && len(res.List) > 0 {
+			lastFld := res.List[len(res.List)-1]
+			if len(lastFld.Names) == 1 {
+				named := info.Defs[lastFld.Names[0]]
+				for _, nd := range f.Nodes {
+					ds, ok := nd.Ast.(*ast.DeferStmt)
+					if !ok || named == nil {
+						continue
+					}
+					lit, ok := ds.Call.Fun.(*ast.FuncLit)
+					if !ok || len(lit.Body.List) != 1 {
+						continue
+					}
+					var assign *ast.AssignStmt
+					switch st := lit.Body.List[0].(type) {
+					case *ast.IfStmt:
+						if x := isNilCompare(info, st.Cond); x != nil && objOf(info, x) == named && ast.Unparen(st.Cond).(*ast.BinaryExpr).Op == token.NEQ && len(st.Body.List) == 1 && st.Else == nil {
+							assign, _ = st.Body.List[0].(*ast.AssignStmt)
+						}
+					case *ast.AssignStmt:
+						assign = st
+					}
+					if assign != nil && len(assign.Lhs) == 1 && len(assign.Rhs) == 1 && objOf(info, assign.Lhs[0]) == named {
+						if c, ok := ast.Unparen(assign.Rhs[0]).(*ast.CallExpr); ok && p.callIs(fi.Pkg, c, kAdErr) && len(c.Args) == 1 && objOf(info, c.Args[0]) == named {
+							deferAdapter = nd.ID
+						}
+					}
+				}
+			}
+		}
 		i := 0
 		for _, id := range f.ReturnNodes() {
 			rs := f.returnStmt(id)
@@ -1339,6 +1418,15 @@ func c11Handlers(p *Prog, r *Report) {
 			n++
 			i++
 			cons := fmt.Sprintf("%s#error-return/%d", k, i)
+			if deferAdapter >= 0 && f.MustPrecede(map[int]bool{deferAdapter: true}, id) {
+				// converted on the way out; the returned value must still carry its class
+				okWrap := true
+				if ac, ok := ast.Unparen(last).(*ast.CallExpr); ok && isFunc(info, ac, "fmt", "Errorf") && !strings.HasPrefix(valueKey(info, ac), "wrap:") {
+					okWrap = false
+				}
+				r.Check(okWrap, "C11.e", cons, p.pos(last), "converted by the deferred adapter Error on the way out", "the handler wraps the usecase error without %w before adapting it: the class is lost on the wire")
+				continue
+			}
 			good, why := adapted(id, last, 0)
 			if why == "" {
 				why = "handler returns an error that did not pass adapter Error: the client receives no typed detail"
